@@ -290,7 +290,35 @@ theorem doSetCall_ev {p : Port} {r : Run} (k : RInvE p r) (hp : p = .telnet) (si
       refine add_evok (r := { r with inputTo := true, noEcho := r.noEcho || noecho }) k.ev i1 ?_
       rw [List.all_append, txEv_evok]; rfl
 
-theorem stepOp_ev (o : Oracle) {p : Port} {r : Run} (k : RInvE p r) (op : Op) (hw : ∀ b, op = .line b → p = .console)
+theorem doLine_ev {p : Port} {r : Run} (k : RInvE p r) (hp : p = .console) (b : List Byte) : RInvE p (doLine r b) := by
+  refine ⟨doLine_rinv k.k hp b, ?_⟩
+  unfold doLine
+  split
+  · exact k.ev
+  · obtain ⟨s', h1, h2, _⟩ := addConsoleLine_N k.k.inv (k.k.pinv.nul (Or.inr (k.k.port.trans hp))) b
+    rw [h1]
+    exact add_evok k.ev h2 rfl
+
+theorem doWpipe_ev {p : Port} {r : Run} (k : RInvE p r) (hp : p = .console) (data : List Byte) : RInvE p (doWpipe r data) := by
+  unfold doWpipe
+  have hl := workerChunks_len (data.length + 1) data
+  generalize workerChunks (data.length + 1) data = cs at hl
+  induction cs generalizing r with
+  | nil => exact k
+  | cons c rest ih =>
+    simp only [List.foldl_cons]
+    refine ih ?_ (fun x hx => hl x (List.mem_cons_of_mem _ hx))
+    have hc := hl c List.mem_cons_self
+    have h1 : 1 ≤ consoleReadReserve := by decide
+    have h2 : consoleReadReserve ≤ consoleMaxLine := by decide
+    have e : doLineW r c = doLine r c := by
+      unfold doLineW
+      rw [if_neg (by rw [k.k.alive]; simp), if_neg (by omega)]
+    rw [e]
+    exact doLine_ev k hp c
+
+theorem stepOp_ev (o : Oracle) {p : Port} {r : Run} (k : RInvE p r) (op : Op)
+    (hw : ((∃ b, op = .line b) ∨ (∃ b, op = .wpipe b)) → p = .console)
     (hw2 : (op = .serve ∨ (∃ ne, op = .getchar ne) ∨ (∃ ne, op = .inputto ne)) → p = .telnet) :
     RInvE p (stepOp o r op) := by
   refine ⟨stepOp_rinv o k.k op hw hw2, ?_⟩
@@ -315,14 +343,8 @@ theorem stepOp_ev (o : Oracle) {p : Port} {r : Run} (k : RInvE p r) (op : Op) (h
   | extract => exact (doExtract_ev k).ev
   | drain => exact (drainLoop_ev 5000 k).ev
   | finish => exact (finishLoop_ev o 20000 k).ev
-  | line b =>
-    dsimp only
-    split
-    · exact k.ev
-    · have hp := hw b rfl
-      obtain ⟨s', h1, h2, _⟩ := addConsoleLine_N k.k.inv (k.k.pinv.nul (Or.inr (k.k.port.trans hp))) b
-      rw [h1]
-      exact add_evok k.ev h2 rfl
+  | line b => exact (doLine_ev k (hw (Or.inl ⟨b, rfl⟩)) b).ev
+  | wpipe b => exact (doWpipe_ev k (hw (Or.inr ⟨b, rfl⟩)) b).ev
   | getchar ne => exact (doSetCall_ev k (hw2 (Or.inr (Or.inl ⟨ne, rfl⟩))) true ne).ev
   | inputto ne => exact (doSetCall_ev k (hw2 (Or.inr (Or.inr ⟨ne, rfl⟩))) false ne).ev
   | serve => exact (doServe_ev k (hw2 (Or.inl rfl))).ev
@@ -343,8 +365,8 @@ theorem run_ev (p : Port) (o : Oracle) (ops : List Op) (hw : WellFormed p ops) :
     intro r k hw'
     simp only [List.foldl_cons]
     have hwt : WellFormed p ops :=
-      ⟨fun b hb => hw'.1 b (List.mem_cons_of_mem _ hb), fun x hx hh => hw'.2 x (List.mem_cons_of_mem _ hx) hh⟩
-    exact ih hwt _ (stepOp_ev o k op (fun b hb => hw'.1 b (by rw [hb]; exact List.mem_cons_self))
+      ⟨fun x hx hh => hw'.1 x (List.mem_cons_of_mem _ hx) hh, fun x hx hh => hw'.2 x (List.mem_cons_of_mem _ hx) hh⟩
+    exact ih hwt _ (stepOp_ev o k op (fun hh => hw'.1 op List.mem_cons_self hh)
       (fun hh => hw'.2 op List.mem_cons_self hh)) hwt
 
 /-- **the safety clauses of the oracle hold on every model trace**: in the event list of `run` (any port, oracle,
